@@ -1054,15 +1054,19 @@ def count_nonzero(a):
     return acc
 
 
-def bincount(a):
+def bincount(a, weights=None, minlength=0):
+    if weights is not None:
+        raise Unsupported("bincount weights")
     a = asarray(a)
     if a.dtype == "f":
         raise TypeError("Cannot cast array data from dtype('float64') to dtype('int64') according to the rule 'safe'")
     vals = a.flat()
+    ml = _idx(minlength) if not isinstance(minlength, int) else minlength
     if not vals:
-        return SArr(Buf([]), (0,), dtype="i")
+        return SArr(Buf([0] * ml), (ml,), dtype="i")
     m = _maxlist(vals)
     n = _idx(m) + 1 if not isinstance(m, int) else m + 1
+    n = _bi.max(n, ml)
     out = []
     for c in range(n):
         acc = 0
